@@ -16,7 +16,7 @@ from models.m_str import str_bytes
 ID = 'C12'
 PROGRAMS = {'core': dict(crate='vaporetto', features=['train', 'kytea'])}
 UNIT_CAP = 150
-BUDGET_S = {'quick': 250, 'thorough': 2400}
+BUDGET_S = {'quick': 600, 'thorough': 1200}      # wall-clock safety caps (exceeding one is reported as inconclusive); typical quick runs take 1-200 s
 CORPORA = {
     'tagged': [('tokenized', 'ab/N c/X ab/V'), ('tokenized', 'c/Y a b/P')],
     'two-cats': [('tokenized', 'a/N/x b/V a/N/y'), ('tokenized', 'b//z a')],
@@ -35,7 +35,7 @@ BOUNDS = {
 }
 OUTSIDE = 'corpora / tag sets outside the catalogue; the learner (stub with concrete representative coefficients); longer evaluation texts'
 EXPLANATION = ('TagTrainer::{add_example, train, train_tag} (via Trainer) are executed (MIR) over the stub learner; the tag models of the returned model are compared with the '
-               'tags observed per token in the corpus and the tag dictionary (distinct tags per category in first-seen order, bias and weight vectors sized to the trainable '
+               'tags observed per token in the corpus and the tag dictionary (the distinct tags per category, each once, in any order; bias and weight vectors sized to the trainable '
                'candidates); the model then tags a symbolic evaluation text through the real predictor: single-tag tokens always get their tag, ambiguous tokens one of '
                'theirs, unseen tokens none, and the stored tag scores equal quantised bias + quantised coefficients of the trainer\'s tag features.')
 ASSUMPTIONS = ['liblinear stub (finite coefficients supplied by the harness)', 'daachorse contract model; hashbrown/BTreeMap models of mirsym']
@@ -180,7 +180,10 @@ def make(e, progs, job):
         got, order = decode_tag_models(model)
         if dict_only:
             e.cover('dictionary-only-token')
-        e.check(sorted(got) == sorted(want) and all(got[t][0] == want[t] for t in want if t in got) and order == sorted(order, key=lambda s: s.encode('utf-8')),
+        # the property fixes, per token and category, the SET of tags (each once) — not their order, nor the order of the tag models
+        def same(a, b):
+            return len(a) == len(b) and all(sorted(x) == sorted(y) for x, y in zip(a, b))
+        e.check(sorted(got) == sorted(want) and len(order) == len(set(order)) and all(same(got[t][0], want[t]) for t in want if t in got),
                 'tag models list exactly the observed tags')
         oks = True
         for t, (tags, bias, wl) in got.items():
@@ -361,7 +364,9 @@ def confirm(sc, replay):
     want = expected_tag_models(ex)
     got = {t['token']: t for t in r['model']['tag_models']}
     bad = []
-    if sorted(got) != sorted(want) or any(got[t]['tags'] != want[t] for t in want if t in got):
+    def same(a, b):
+        return len(a) == len(b) and all(sorted(x) == sorted(y) for x, y in zip(a, b))
+    if sorted(got) != sorted(want) or len(got) != len(r['model']['tag_models']) or any(not same(got[t]['tags'], want[t]) for t in want if t in got):
         bad.append('tag models list exactly the observed tags')
     for t, tm in got.items():
         ncls = sum(len(c) for c in tm['tags'] if len(c) >= 2)
